@@ -13,7 +13,7 @@ ID = "C12"
 RULE = ("E-INPUT: every (domain, range, query) with domain/range end points from 13 floats of magnitude 1e-6..1e9 (both signs, "
         "both orders, a != b) + a seeded value + near-tie domains v..v(1+2^-40|1e-10|3e-7), queries = end points, interior and exterior points; exact affine reference in "
         "rationals; clamp on/off; for every ordered pair of the integers and halves -10..20 and m in {default,2,3,5,8,20}: domain, range, [clamp], nice(m), then the map through the reported domain. E-HIST: BFS over every history of domain(7)/range(6)/clamp(2)/nice()/nice(2)/nice(3)/interpolate(linear)/copy()/deepcopy()/getter read-modify-write/caller-kept lists/one-shot iterators calls on "
-        "a pool of <=3 scales up to the depth bound (quick 4, thorough 6), each state rebuilt by replaying the history on fresh "
+        "a pool of <=3 scales up to the depth bound (quick 4; thorough 5, and 6 for the core alphabet of 4 domains, 4 ranges, clamp, nice, copy), each state rebuilt by replaying the history on fresh "
         "real objects, dedup by object-graph fingerprint incl. aliasing; invariants: end points of the reported domain map to "
         "the reported range (method and call form), with clamping enabled outputs stay inside the range, operations on one scale leave every other scale's observations unchanged. "
         "Non-trivial (E-HIST): transitions on pools with >= 2 scales; (E-INPUT): query not an end point.")
@@ -120,6 +120,8 @@ RNG = [[0, 1], [100, 0], [-5, 5], [-1, 640], [-2, 640], [0, 1.0000000005]]
 OPS = ([("domain", d) for d in DOM] + [("range", r) for r in RNG]
        + [("clamp", True), ("clamp", False), ("nice", None), ("nice", 3), ("nice", 2), ("interpolate", None), ("copy", None), ("deepcopy", None), ("rmw-range", None), ("rmw-domain", None),
           ("alias-range", RNG[1]), ("alias-domain", DOM[3]), ("iter-range", RNG[2]), ("iter-domain", DOM[2])])
+CORE_OPS = ([("domain", d) for d in DOM[:4]] + [("range", r) for r in RNG[:4]]
+            + [("clamp", True), ("clamp", False), ("nice", None), ("nice", 3), ("copy", None)])
 PROBES = (-1, 0, .5, 1, 3, 9.7, 20)
 PRE = (0, 50, -5)
 
@@ -225,7 +227,8 @@ def check_history(hist):
     return None
 
 
-def bfs(prefix, depth, acc):
+def bfs(prefix, depth, acc, ops=None):
+    ops = OPS if ops is None else ops
     seen = set()
     frontier = collections.deque([list(prefix)])
     first = True
@@ -243,7 +246,7 @@ def bfs(prefix, depth, acc):
             continue
         pool = build(h)
         for i in range(len(pool)):
-            for op, arg in OPS:
+            for op, arg in ops:
                 if op in ("copy", "deepcopy") and len(pool) >= 3:
                     continue
                 nh = h + [(i, op, arg)]
@@ -333,9 +336,13 @@ def plan(tier, seed):
     n = 32
     for r in range(n):
         shards.append({"kind": "grid", "mod": n, "rem": r, "seed": seed})
-    depth = 4 if tier == "quick" else 6
+    # quick: the full alphabet to depth 4; thorough: the full alphabet to depth 5 and the core alphabet (4 domains, 4 ranges,
+    # clamp on/off, nice(), nice(3), copy()) to depth 6 - the full alphabet at depth 6 is beyond a few hours
     for op in OPS:
-        shards.append({"kind": "hist", "prefix": [[0, op[0], op[1]]], "depth": depth})
+        shards.append({"kind": "hist", "prefix": [[0, op[0], op[1]]], "depth": 4 if tier == "quick" else 5})
+    if tier == "thorough":
+        for op in CORE_OPS:
+            shards.append({"kind": "hist", "prefix": [[0, op[0], op[1]]], "depth": 6, "ops": "core"})
     return shards
 
 
@@ -388,7 +395,7 @@ def run_shard(shard):
         acc.sample({"a": a, "b": b, "r0": r0, "r1": r1})
         return acc
     prefix = [tuple(p) for p in shard["prefix"]]
-    bfs(prefix, shard["depth"], acc)
+    bfs(prefix, shard["depth"], acc, CORE_OPS if shard.get("ops") == "core" else None)
     acc.sample({"hist": prefix + [(0, "copy", None), (1, "nice", None)]})
     return acc
 
